@@ -812,6 +812,32 @@ func staticCone(w *World, keys []string, roots []*types.Func, withValues bool) m
 				out = append(out, f)
 			}
 		}
+		// a method the implementing type gets from a type it embeds (the grammar lexers embed
+		// CommonLex: the parser's lexer.Error is CommonLex.Error)
+		for _, k := range keys {
+			scope := w.Pkg(k).Types.Scope()
+			for _, n := range scope.Names() {
+				tn, isT := scope.Lookup(n).(*types.TypeName)
+				if !isT {
+					continue
+				}
+				pt := types.NewPointer(tn.Type())
+				if _, isIface := tn.Type().Underlying().(*types.Interface); isIface || !types.Implements(pt, it) {
+					continue
+				}
+				if sel := types.NewMethodSet(pt).Lookup(m.Pkg(), m.Name()); sel != nil {
+					if f, isF := sel.Obj().(*types.Func); isF && decls[f] != nil {
+						dup := false
+						for _, o := range out {
+							dup = dup || o == f
+						}
+						if !dup {
+							out = append(out, f)
+						}
+					}
+				}
+			}
+		}
 		return out
 	}
 	cone := map[*types.Func]*ast.FuncDecl{}
